@@ -679,6 +679,8 @@ def build_scenario(kind, v):
             its = vals.get("set:item_set", [])
             if not its:
                 return None
+            if vals.get("abstract_imbalance"):
+                return skewed_scenarios(sa)
             out = []
             for seed in range(6):
                 out.append(f"=== seed {seed}")
@@ -956,13 +958,34 @@ def delete_trees_obligation(o, tier, seed):
 
 
 # ------------------------------------------------------------------------------------ make_tree_in_file
-def run_make_tree(ctx, max_items, deadline):
+def run_make_tree(ctx, max_items, deadline, abstract_imbalance=False, min_items=1):
     """make_tree_in_file over every item set S with 1 <= |S| <= max_items, all side decisions,
     zero/non-zero normals, split_after 1..=3.  randomly_split_children is replaced by its contract
     (L u R = S, disjoint) under a fairness assumption (both sides non-empty); its own MIR is
-    checked separately against that contract."""
+    checked separately against that contract.
+
+    abstract_imbalance: split_imbalance(l, r) is replaced by its contract -- an arbitrary f64 in
+    [0.5, 1] that exceeds 0.99 when one side is empty -- so that the retry loop and the
+    "no usable hyperplane" fallback take, on 2..3 items, every branch combination that nodes of
+    hundreds of items take (imbalance in [0.95, 0.99], in ]0.99, 1[ with both sides non-empty,
+    better-then-worse attempts).  Every real (l, r) -> imbalance map satisfies the contract, hence
+    an over-approximation of the real behaviours."""
     from mirsym.models import model, one, unit, bitmap_of
     eng = make_engine(ctx, max_depth=max_items + 1)
+
+    def m_imbalance(e, st, callee, a, ty):
+        l, r = a[0], a[1]
+        v = e.fresh("imbalance", z3.Float64())
+        f64 = z3.Float64()
+        st.pc.append(z3.Not(z3.fpIsNaN(v)))
+        st.pc.append(z3.fpGEQ(v, z3.FPVal(0.5, f64)))
+        st.pc.append(z3.fpLEQ(v, z3.FPVal(1.0, f64)))
+        st.pc.append(z3.Implies(z3.Or(l == BV(0, 64), r == BV(0, 64)), z3.fpGT(v, z3.FPVal(0.99, f64))))
+        st.env.setdefault("assumptions", []).append(
+            "split_imbalance replaced by its contract: any f64 in [0.5, 1], > 0.99 when a side is empty")
+        return one(v)
+    if abstract_imbalance:
+        eng.models = [(re.compile(r"^split_imbalance$"), m_imbalance)] + eng.models
 
     def m_random_split(e, st, callee, a, ty):
         s = bitmap_of(e, a[1])
@@ -981,7 +1004,8 @@ def run_make_tree(ctx, max_items, deadline):
     split_after = z3.BitVec("split_after", 64)
     index = z3.BitVec("index", 16)
     used_tids = [0, 2]
-    for n in range(1, max_items + 1):
+    tag = " (abstract imbalance)" if abstract_imbalance else ""
+    for n in range(min_items, max_items + 1):
         pc = [DIMS_OK, popcount(items, 8) == BV(n, 8), z3.UGE(split_after, 1), z3.ULE(split_after, 3)]
         ids = node_ids_value(eng, used_tids, pc)
         env = {"store": {}, "frozen": {}, "stored_items": items, "leafs": items,
@@ -1004,9 +1028,11 @@ def run_make_tree(ctx, max_items, deadline):
                 for name, term in extra:
                     v = m.eval(term, model_completion=True).as_long()
                     d[name] = [i for i in range(U) if v >> i & 1] if name.startswith("set:") else v
-                results["violations"].append({"shape": f"|S|={n}", "clause": clause, "pre": None, "values": d})
+                if abstract_imbalance:
+                    d["abstract_imbalance"] = True
+                results["violations"].append({"shape": f"|S|={n}{tag}", "clause": clause, "pre": None, "values": d})
             if f.status in ("unknown", "unwind"):
-                results["unknown"].append(f"|S|={n}: {f.status}: {f.info}")
+                results["unknown"].append(f"|S|={n}{tag}: {f.status}: {f.info}")
                 continue
             if f.status == "panic":
                 ok, m = eng.check(f.pc)
@@ -1051,7 +1077,7 @@ def run_make_tree(ctx, max_items, deadline):
                 continue
             if v is not None:
                 viol(v["clause"], v["model"])
-        results["shapes"].append({"shape": f"|S|={n}", "paths": len(finals), "ok_paths": n_ok})
+        results["shapes"].append({"shape": f"|S|={n}{tag}", "paths": len(finals), "ok_paths": n_ok})
     results["queries"], results["solver_s"] = eng.queries, round(eng.solver_s, 2)
     results["encoded"] = sorted(E.short(n) for n in eng.encoded)
     return results
@@ -1108,6 +1134,51 @@ def make_tree_obligation(o, tier, seed):
     r["shapes"] += r2["shapes"]
     r["encoded"] = sorted(set(r["encoded"]) | set(r2["encoded"]))
     return outcomes_from(o, r, "make_tree", native, e2, Outcome)
+
+
+def make_tree_abstract_obligation(o, tier, seed):
+    """C04: make_tree_in_file with split_imbalance replaced by its contract (small-scope stand-in for
+    nodes of hundreds of items: retried splits, the ]0.99, 1[ fallback with both sides non-empty)."""
+    import e2
+    import native
+    from driver import Outcome
+    try:
+        ctx = e2.context(True)
+    except RuntimeError as e:
+        return [Outcome(o["id"], "mirsym", "inconclusive", str(e))]
+    # thorough: |S| = 3 as well, under the time cap (the enumeration may be reported as truncated)
+    r = run_make_tree(ctx, 3 if tier == "thorough" else 2, time.time() + (3000 if tier == "thorough" else 1500),
+                      abstract_imbalance=True, min_items=2)
+    return outcomes_from(o, r, "make_tree", native, e2, Outcome)
+
+
+def skewed_scenarios(sa):
+    """Native stand-ins for the abstract-imbalance counterexamples: nodes whose hyperplanes are all very
+    imbalanced.  (a) 120 points packed on a ray + 1 outlier across the origin (imbalance in ]0.99, 1[),
+    default capacity; (b) 194 almost collinear points + 6 outliers (imbalance in [0.95, 0.99], every
+    attempt retried), one bucket-sized root; both followed by an incremental round."""
+    import random
+    out = []
+    for seed in range(3):
+        out += [f"=== ray+outlier seed {seed}", "dim 2"]
+        for i in range(120):
+            sc = 1.0 + i * 0.001
+            out.append(f"add {i} {0.6 * sc:.6f},{0.8 * sc:.6f}")
+        out.append("add 200 -0.6,-0.8")
+        out += [f"build n_trees=3 seed={seed}", "expect_valid", "expect_routing"]
+        for i in range(120, 140):
+            sc = 1.0 + i * 0.001
+            out.append(f"add {i} {0.6 * sc:.6f},{0.8 * sc:.6f}")
+        out += ["del 5", f"build n_trees=3 seed={seed + 100}", "expect_valid", "expect_routing"]
+    for seed in range(12):
+        rnd = random.Random(seed)
+        out += [f"=== cluster+outliers seed {seed}", "dim 2"]
+        for i in range(194):
+            out.append(f"add {i} {rnd.uniform(1.0, 2.0):.6f},{rnd.uniform(-0.001, 0.001):.7f}")
+        for k, (x, y) in enumerate([(-1.0, 3.0), (-1.0, -3.0), (0.5, 5.0), (0.5, -5.0), (-2.0, 0.3), (-0.3, 4.0)]):
+            out.append(f"add {194 + k} {x},{y}")
+        out += [f"build n_trees=1 split_after=199 seed={seed}", "expect_valid", "expect_routing"]
+    return "\n".join(out) + "\n"
 
 
 def faults_obligation(o, tier, seed):
